@@ -66,6 +66,9 @@ class TieLoop(SimLoop):
                 i = j
             due = out
         self._ready.extend(due)
+        if not self._ready and not self._scheduled and not self._stopping:
+            # the base loop would block in select() for ever: there are no threads or sockets here
+            raise SimDeadlock("nothing ready, nothing scheduled")
         super()._run_once()
 
 
@@ -617,9 +620,14 @@ def simulate(scn: dict, policy: str = "fifo", max_steps: int = 5000) -> dict:
                 for t in pending:
                     t.cancel()
                 loop._steps_at_instant = 0
-                loop.run_until_complete(asyncio.gather(*pending, return_exceptions=True))
+                try:
+                    loop.run_until_complete(asyncio.gather(*pending, return_exceptions=True))
+                except (SimDeadlock, SimStall):
+                    pass
         except BaseException:  # noqa: BLE001
             pass
+        for t in asyncio.all_tasks(loop):
+            t._log_destroy_pending = False
         try:
             loop.close()
         except BaseException:  # noqa: BLE001
